@@ -381,6 +381,16 @@ class Ctx:
                         "" if okc else chk[-600:])
         return all_closed, None, out
 
+    def findings(self, vfiles):
+        """Compile coq/Findings/*.v witnesses of open known findings separately.
+        A failure is a note (the finding stopped reproducing in the model), never
+        a violation."""
+        for vf in vfiles:
+            ok, out = coq_compile_capture(vf)
+            self.coverage.setdefault("findings_witnesses", {})[vf] = "compiles (finding still reproduces in the model)" if ok else "does NOT compile: " + out[-300:]
+            if not ok:
+                self.notes.append("finding witness %s no longer compiles (note, not a violation)" % vf)
+
     def runner(self, comp, extract_v):
         path, log = build_runner(comp, extract_v)
         self.checker_cmds.append("coqc Extract/%s (ExtrOcamlBasic) && ocamlfind ocamlopt -> ocaml/%s/runner" % (extract_v, comp))
